@@ -36,6 +36,9 @@ KF_F64BOUND = ("RangeQuery with a non-integer f64 bound on an integer JSON fast-
                "(transform_from_f64_bounds): the lower bound 1.5 admits the value 1, the upper bound -0.5 admits the value 0")
 KF_IPEXCL = ("RangeQuery on an ip fast field with the upper bound Excluded(::) matches every document that has an address "
              "(u128 underflow in bound_range_inclusive_ip; a panic when overflow checks are on)")
+KF_SLOP3SEG = ("a phrase of three or more terms with slop matches a document or not depending on the segment: PhraseScorer chains the "
+               "terms in the cost order of Intersection::new (per-segment document frequencies), not in phrase order, so the greedy slop "
+               "budget gives different answers for different segmentations of the same documents")
 F7_TEXT = "a single Should clause with minimum_number_should_match >= 2 returns the clause's documents instead of nothing"
 
 
@@ -131,6 +134,8 @@ def classify(diag):
     got = diag.get("got", {})
     if union_has_danger_member(q) and may_be_intersection(q) and isinstance(got.get("count"), int) and got["count"] > diag.get("expected_count", 0):
         return "C03 query semantics: " + KF_UNIONMEMBER + f" [{path}]"
+    if q.get("k") == "phrase" and len(q.get("ts", [])) >= 3 and q.get("slop", 0) > 0 and str(path).startswith("segmentation"):
+        return "C03 query semantics: " + KF_SLOP3SEG
     if q.get("k") == "phrase" and len(q.get("ts", [])) >= 3 and q.get("slop", 0) > 0:
         return "C03 query semantics: " + KF_SLOP3 + f" [{path}]"
     if has_ip_excl0(q):
@@ -367,8 +372,8 @@ def known_finding_runs(ctx):
     """dedicated reproductions of the recorded findings the default generator steers around: F35 (prefix fuzzy with distance 2),
     a phrase of three terms with slop and scoring disabled, non-integer f64 bounds on an integer JSON column"""
     un = {"b": "un"}
-    qs = [{"k": "fuzzy", "f": "tag", "t": [1, 1, 2], "d": 2, "tr": False, "prefix": True},
-          ]
+    qs = [{"k": "fuzzy", "f": "tag", "t": [1, 1, 2], "d": 2, "tr": False, "prefix": True}]
+
     cp = ctx.path("kf_queries.ndjson")
     vlib.write_ndjson(cp, qs)
     tp = ctx.path("kf_trace.ndjson")
@@ -376,9 +381,15 @@ def known_finding_runs(ctx):
     seen = []
     before = ctx.cov["traces_validated_against_impl"]
     validate(ctx, vlib.read_ndjson(tp), "kf", seen=seen)
+    # phrases of three terms with slop 2 on three segmentations of the same 700 documents (terms chained in per-segment cost order)
+    cp2 = ctx.path("kf_phrase3.ndjson")
+    vlib.write_ndjson(cp2, [{"k": "phrase", "f": "title", "ts": list(ts), "slop": 2} for ts in itertools.permutations(["t0", "t1", "t2", "t3", "all"], 3)])
+    tp2 = ctx.path("kf_phrase3_trace.ndjson")
+    vlib.run_bin("query_driver", ["random", "--seed", 1, "--docs", 700, "--fixed", cp2, "--out", tp2], timeout=300)
+    validate(ctx, vlib.read_ndjson(tp2), "kf_p3", seen=seen)
     ctx.cov["traces_validated_against_impl"] = before
     ctx.cov["recorded_findings_reproduced"] = {"F35 fuzzy_prefix_distance_2": any(KF_FUZZYPREFIX in s for s in seen),
-                                               }
+                                               "phrase_slop_3_terms_depends_on_segmentation": any(KF_SLOP3SEG in s for s in seen)}
 
 
 def regression_cases(ctx):
